@@ -19,7 +19,7 @@ Definition opp (c : color) : color := match c with White => Black | Black => Whi
 
 (* squares are indices 0..63, a1 = 0, b1 = 1, ..., h8 = 63 *)
 Definition board := list (option piece).
-Definition get (b : board) (s : N) : option piece := nth (N.to_nat s) b None.
+Definition bget (b : board) (s : N) : option piece := nth (N.to_nat s) b None.
 Fixpoint set_nth {A} (l : list A) (n : nat) (x : A) : list A :=
   match l, n with
   | [], _ => []
@@ -43,11 +43,11 @@ Inductive move :=
 | Castle (king_side : bool).
 
 Definition is_piece (b : board) (s : N) (c : color) (k : kind) : bool :=
-  match get b s with Some (c', k') => color_eqb c c' && kind_eqb k k' | None => false end.
+  match bget b s with Some (c', k') => color_eqb c c' && kind_eqb k k' | None => false end.
 Definition is_color (b : board) (s : N) (c : color) : bool :=
-  match get b s with Some (c', _) => color_eqb c c' | None => false end.
+  match bget b s with Some (c', _) => color_eqb c c' | None => false end.
 Definition is_empty (b : board) (s : N) : bool :=
-  match get b s with None => true | Some _ => false end.
+  match bget b s with None => true | Some _ => false end.
 
 (* ---- how pieces attack (Art. 3.2 - 3.8) ---- *)
 
@@ -88,7 +88,7 @@ Definition piece_attacks (b : board) (c : color) (k : kind) (a s : N) : bool :=
 
 (* square s is attacked by some piece of colour c *)
 Definition attacked (b : board) (c : color) (s : N) : bool :=
-  existsb (fun a => match get b a with
+  existsb (fun a => match bget b a with
                     | Some (c', k) => color_eqb c c' && piece_attacks b c k a s
                     | None => false
                     end) all_squares.
@@ -143,7 +143,7 @@ Definition pseudo_legal (p : position) (m : move) : bool :=
   | Castle ks => castle_ok p ks
   | Normal from to promo =>
     (from <? 64)%N && (to <? 64)%N &&
-    match get (brd p) from with
+    match bget (brd p) from with
     | Some (c, k) =>
       color_eqb c (stm p) && negb (is_color (brd p) to c) &&
       match k with
@@ -175,7 +175,7 @@ Definition move_board (p : position) (m : move) : board :=
     let b1 := set (set b (sq_of 4 r) None) (sq_of (if ks then 6 else 2) r) (Some (c, King)) in
     set (set b1 (sq_of (if ks then 7 else 0) r) None) (sq_of (if ks then 5 else 3) r) (Some (c, Rook))
   | Normal from to promo =>
-    let moved := match promo with Some k => Some (c, k) | None => get b from end in
+    let moved := match promo with Some k => Some (c, k) | None => bget b from end in
     let b1 := if is_ep_capture p from to then set b (sq_of (file_of to) (rank_of from)) None else b in
     set (set b1 from None) to moved
   end.
@@ -224,7 +224,7 @@ Definition legal (p : position) (m : move) : bool :=
 (* ---- executable enumeration ---- *)
 Definition promos : list (option kind) := [Some Queen; Some Rook; Some Bishop; Some Knight].
 Definition candidates_from (p : position) (from : N) : list move :=
-  match get (brd p) from with
+  match bget (brd p) from with
   | Some (c, k) =>
     if color_eqb c (stm p) then
       flat_map (fun to =>
